@@ -153,7 +153,6 @@ PROPS = {
         lemmas={'LINKFLOW': ['lemma_c09_threshold_reached_within_credit']},
         assumptions=[ASYNC,
             'parking_lot::RwLock and Arc<AtomicU32> erased: disposal concurrent with recv from another task is not modelled',
-            'ReceiverInner::set_credit / drain are not under contract',
             'the overrun error being turned into a detach frame by the link/engine is not verified']),
     'C12': dict(
         units=['CONN', 'CONNENG', 'HEADERS'],
